@@ -119,11 +119,16 @@ Mals == {"root_tag02", "root_tagff", "root_empty", "root_4bits", "root_7bits",
          "chunk_maybe1_noref", "chunk_no_maybe", "chunk_bad_label", "chunk_key_16bit",
          "off_12bits", "off_4_5", "off_trailing_ref", "off_trailing_ref_2nd", "off_ref_is_data",
          "dict_label_gt", "dict_label_cut", "dict_fork_one_ref", "dict_fork_extra_bits", "dict_fork_third_ref", "dict_key_255",
-         "semi_uri_empty", "semi_uri_unaligned", "known_empty_values"}
+         "semi_uri_empty", "semi_uri_unaligned", "known_empty_values",
+         "exotic_pruned_value", "exotic_library_value", "exotic_pruned_leaf", "exotic_library_snake_next", "exotic_pruned_root"}
+\* exotic cells (outside the documents: anything but a panic)
+PrunedCell == [b |-> Byte(1) \o Byte(1) \o [i \in 1..272 |-> i % 2], x |-> Pruned, m |-> 1, r |-> <<>>]
+LibraryCell == [b |-> Byte(2) \o [i \in 1..256 |-> (i \div 3) % 2], x |-> Library, m |-> 0, r |-> <<>>]
 MalCase(m) ==
   LET free(T, f, lay) == [T |-> T, dicts |-> FALSE, want |-> Want("free", lay, f, <<>>)]
       err(T)          == [T |-> T, dicts |-> FALSE, want |-> WantErr]
       okc(T, f, lay)  == [T |-> T, dicts |-> FALSE, want |-> Want("ok", lay, f, <<>>)]
+      any(T)          == [T |-> WithMasks(T), dicts |-> FALSE, want |-> Want("any", "none", NoFields, <<>>)]
       base1 == One("name", NameV, LF1)
       base2 == Two(NameV, UnkV, LF1)
   IN CASE m = "root_tag02" -> err(<< Cell(Byte(2) \o <<0>>, <<>>) >>)
@@ -184,6 +189,13 @@ MalCase(m) ==
        [] m = "dict_key_255" -> err(<< Cell(Byte(0) \o <<1>>, <<2>>), Cell(<<1, 0>> \o NatToBits(255, 9) \o SubSeq(KeyOf("name"), 1, 255), <<3>>) >> \o ShiftT(NameV, 2))
        [] m = "semi_uri_empty" -> okc(EncOnchain(<< [k |-> KeyOf("name"), t |-> NameV], [k |-> KeyOf("uri"), t |-> << Cell(Byte(0), <<>>) >>] >>, LF1), NameOnly, "semichain")
        [] m = "semi_uri_unaligned" -> err(EncOnchain(<< [k |-> KeyOf("name"), t |-> NameV], [k |-> KeyOf("uri"), t |-> << Cell(Byte(0) \o <<1, 0, 1>>, <<>>) >>] >>, LF1))
+       [] m = "exotic_pruned_value" -> any(One("name", << PrunedCell >>, LF1))
+       [] m = "exotic_library_value" -> any(One("name", << LibraryCell >>, LF1))
+       [] m = "exotic_pruned_leaf" -> LET T0 == Two(NameV, <<>>, LF1)
+                                          j  == CHOOSE j \in {3, 4} : Len(T0[j].r) = 0
+                                      IN any([T0 EXCEPT ![j] = PrunedCell])
+       [] m = "exotic_library_snake_next" -> any([EncOffchain(Url("s"), <<16, 8 * Len(Url("s")) - 16>>) EXCEPT ![2] = LibraryCell])
+       [] m = "exotic_pruned_root" -> any(<< PrunedCell >>)
        [] m = "known_empty_values" -> okc(EncOnchain(SetToSeq({ [k |-> KeyOf(a), t |-> << Cell(Byte(0), <<>>) >>] : a \in AttrSet \ {"uri"} }), LF1), NoFields, "onchain")
 
 \* ------------------------------------------------------------------- cases
@@ -211,7 +223,7 @@ SelfCheck(b, bag) ==
   LET V  == Verdict(b.T, 1)
       pr == Parse(bag)
   IN /\ Topological(b.T) /\ \A i \in 1..Len(b.T) : BasicOK(b.T[i])
-     /\ pr.ok /\ pr.roots = <<1>> /\ [i \in 1..Len(pr.T) |-> [pr.T[i] EXCEPT !.m = 0]] = b.T
+     /\ pr.ok /\ pr.roots = <<1>> /\ pr.T = b.T
      /\ V.v = b.want.v
      /\ V.v \in {"ok", "free"} =>
           /\ V.d.layout = b.want.layout
